@@ -1,2 +1,175 @@
+/* cli.run: run a `jose` subcommand (the working tree's cmd/ objects, main renamed) in a forked
+ * child with its own working directory, stdin, stdout; report exit status, stdout, files written. */
 #include "hx.h"
-const op_t ops_api[] = { { NULL, NULL } };
+#include <dirent.h>
+#include <errno.h>
+#include <fcntl.h>
+#include <sys/stat.h>
+#include <sys/types.h>
+#include <sys/wait.h>
+#include <unistd.h>
+
+int jose_cli_main(int argc, char *argv[]);
+
+static void
+rm_rf(const char *dir)
+{
+    DIR *d = opendir(dir);
+    struct dirent *e;
+    char path[4096];
+    if (!d)
+        return;
+    while ((e = readdir(d))) {
+        if (strcmp(e->d_name, ".") == 0 || strcmp(e->d_name, "..") == 0)
+            continue;
+        snprintf(path, sizeof(path), "%s/%s", dir, e->d_name);
+        unlink(path);
+    }
+    closedir(d);
+    rmdir(dir);
+}
+
+static json_t *
+read_file_hex(const char *path)
+{
+    FILE *f = fopen(path, "rb");
+    uint8_t *buf = NULL;
+    size_t len = 0, cap = 0;
+    json_t *r;
+    if (!f)
+        return json_null();
+    for (;;) {
+        size_t n;
+        if (len + 65536 > cap) {
+            cap = cap ? cap * 2 : 131072;
+            buf = realloc(buf, cap);
+        }
+        n = fread(buf + len, 1, 65536, f);
+        len += n;
+        if (n == 0)
+            break;
+    }
+    fclose(f);
+    r = hx_hex(buf ? buf : (uint8_t *) "", len);
+    free(buf);
+    return r;
+}
+
+/* cli.run {argv:[..], stdin: hex?, files: {name: hex}} */
+static json_t *
+op_cli_run(json_t *args)
+{
+    json_t *argvj = hx_arg(args, "argv");
+    json_t *files = hx_arg(args, "files");
+    char tmpl[] = "/var/tmp/hxcli.XXXXXX";
+    char *dir = mkdtemp(tmpl);
+    char path[4096];
+    json_t *res = json_object();
+    const char *name;
+    json_t *v;
+    pid_t pid;
+    int status = 0;
+
+    if (!dir)
+        return json_pack("{s:s}", "error", "mkdtemp");
+    json_object_foreach(files, name, v) {
+        size_t len = 0;
+        uint8_t *b = hx_unhex(json_string_value(v), &len);
+        FILE *f;
+        snprintf(path, sizeof(path), "%s/%s", dir, name);
+        f = fopen(path, "wb");
+        if (f) {
+            fwrite(b, 1, len, f);
+            fclose(f);
+        }
+        free(b);
+    }
+    {
+        size_t len = 0;
+        uint8_t *b = hx_arg_hex(args, "stdin", &len);
+        FILE *f;
+        snprintf(path, sizeof(path), "%s/.stdin", dir);
+        f = fopen(path, "wb");
+        if (f) {
+            if (b)
+                fwrite(b, 1, len, f);
+            fclose(f);
+        }
+        free(b);
+    }
+    fflush(stdout);
+    pid = fork();
+    if (pid == 0) {
+        size_t n = json_array_size(argvj);
+        char **av = calloc(n + 2, sizeof(char *));
+        int fd;
+        if (chdir(dir) != 0)
+            _exit(250);
+        fd = open(".stdin", O_RDONLY);
+        dup2(fd, 0);
+        fd = open(".stdout", O_WRONLY | O_CREAT | O_TRUNC, 0600);
+        dup2(fd, 1);
+        fd = open(".stderr", O_WRONLY | O_CREAT | O_TRUNC, 0600);
+        dup2(fd, 2);
+        av[0] = "jose";
+        for (size_t i = 0; i < n; i++)
+            av[i + 1] = (char *) json_string_value(json_array_get(argvj, i));
+        {
+            int rc = jose_cli_main((int) n + 1, av);
+            fflush(stdout);
+            _exit(rc & 0xff);
+        }
+    }
+    waitpid(pid, &status, 0);
+    if (WIFEXITED(status))
+        json_object_set_new(res, "status", json_integer(WEXITSTATUS(status)));
+    else
+        json_object_set_new(res, "crash", json_sprintf("signal %d", WTERMSIG(status)));
+    snprintf(path, sizeof(path), "%s/.stdout", dir);
+    json_object_set_new(res, "stdout", read_file_hex(path));
+    {
+        /* sanitizer reports of the child */
+        FILE *f;
+        char line[512];
+        snprintf(path, sizeof(path), "%s/.stderr", dir);
+        f = fopen(path, "r");
+        while (f && fgets(line, sizeof(line), f)) {
+            if (strstr(line, "Sanitizer") || strstr(line, "runtime error")) {
+                line[strcspn(line, "\n")] = 0;
+                json_object_set_new(res, "crash", json_string(line));
+                break;
+            }
+        }
+        if (f)
+            fclose(f);
+    }
+    {
+        json_t *out = json_object();
+        DIR *d = opendir(dir);
+        struct dirent *e;
+        while (d && (e = readdir(d))) {
+            if (e->d_name[0] == '.')
+                continue;
+            if (json_object_get(files, e->d_name) && !json_is_true(json_object_get(args, "report_inputs")))
+                continue;
+            snprintf(path, sizeof(path), "%s/%s", dir, e->d_name);
+            json_object_set_new(out, e->d_name, read_file_hex(path));
+        }
+        if (d)
+            closedir(d);
+        json_object_set_new(res, "files", out);
+    }
+    {
+        char p2[4096];
+        snprintf(p2, sizeof(p2), "%s/.stdin", dir); unlink(p2);
+        snprintf(p2, sizeof(p2), "%s/.stdout", dir); unlink(p2);
+        snprintf(p2, sizeof(p2), "%s/.stderr", dir); unlink(p2);
+    }
+    rm_rf(dir);
+    return res;
+}
+
+const op_t ops_api[] = {
+    { "cli.run", op_cli_run },
+    { NULL, NULL }
+};
